@@ -269,12 +269,20 @@ func (n *node) ChildrenByType(match NodeType) []Node {
 		for _, nd := range n.Children() {
 			switch nd.Type() {
 			case NodeContainer, NodeLeaf, NodeLeafList, NodeList:
+				// The implicit case belongs to the module of its
+				// member, which an augment may have added from
+				// another module.
+				tree, useTree := n.tree, n.useTree
+				if member, ok := nd.(*node); ok {
+					tree, useTree = member.tree, member.useTree
+				}
 				newnd := newNodeByType(NodeCase,
-					n.tree,
+					tree,
 					item{pos: nd.position(), val: "case"},
 					nd.Name(),
 					[]Node{nd},
 					&Scope{tenv: n.tenv, genv: n.genv}, nil)
+				newnd.useTree = useTree
 				n.ReplaceChild(nd, newnd)
 			}
 		}
